@@ -1668,6 +1668,71 @@ type panicSource struct {
 func panicSources(body ast.Node) []panicSource {
 	var out []panicSource
 	checked := map[*ast.TypeAssertExpr]bool{}
+	// (*csv.Reader).FieldPos panics on an index for which no position was recorded; after a Read
+	// that failed there may be none at all (a quoting error in the first field of a row). In the
+	// branch that handles a non-nil error it is a panic on malformed input.
+	var stack []ast.Node
+	ast.Inspect(body, func(n ast.Node) bool {
+		if n == nil {
+			stack = stack[:len(stack)-1]
+			return true
+		}
+		stack = append(stack, n)
+		call, ok := n.(*ast.CallExpr)
+		if !ok {
+			return true
+		}
+		sel, ok := call.Fun.(*ast.SelectorExpr)
+		if !ok || sel.Sel.Name != "FieldPos" || len(call.Args) != 1 {
+			return true
+		}
+		for i := len(stack) - 2; i >= 0; i-- {
+			is, isIf := stack[i].(*ast.IfStmt)
+			if !isIf || call.Pos() < is.Body.Pos() || call.End() > is.Body.End() {
+				continue
+			}
+			// the error tested is the one Read() returned: the statement in front of the `if`
+			afterRead := false
+			if i > 0 {
+				if blk, isBlk := stack[i-1].(*ast.BlockStmt); isBlk {
+					for k, st := range blk.List {
+						if st != ast.Stmt(is) {
+							continue
+						}
+						// the nearest assignment from a call in front of the `if` (other tests of
+						// the same error, like `if err == io.EOF`, may stand in between)
+						for j := k - 1; j >= 0; j-- {
+							as, isAs := blk.List[j].(*ast.AssignStmt)
+							if !isAs || len(as.Rhs) != 1 {
+								continue
+							}
+							rc, isCall := ast.Unparen(as.Rhs[0]).(*ast.CallExpr)
+							if !isCall {
+								continue
+							}
+							if rs, isSel := rc.Fun.(*ast.SelectorExpr); isSel && rs.Sel.Name == "Read" {
+								if e, isID := as.Lhs[len(as.Lhs)-1].(*ast.Ident); isID {
+									if be, isBin := ast.Unparen(is.Cond).(*ast.BinaryExpr); isBin {
+										for _, side := range []ast.Expr{be.X, be.Y} {
+											if id, isI := ast.Unparen(side).(*ast.Ident); isI && id.Name == e.Name {
+												afterRead = true
+											}
+										}
+									}
+								}
+							}
+							break
+						}
+					}
+				}
+			}
+			if be, isBin := ast.Unparen(is.Cond).(*ast.BinaryExpr); afterRead && isBin && be.Op == token.NEQ && (isNilIdent(ast.Unparen(be.Y)) || isNilIdent(ast.Unparen(be.X))) {
+				out = append(out, panicSource{call.Pos(), "FieldPos after a failed read", "FieldPos(" + exprString(call.Args[0]) + ") in the branch that handles a read error panics when the failed row recorded no position for that field (a quoting error in its first field)"})
+				break
+			}
+		}
+		return true
+	})
 	ast.Inspect(body, func(n ast.Node) bool {
 		switch x := n.(type) {
 		case *ast.AssignStmt:
@@ -1709,13 +1774,23 @@ func f(t interface{}) {
 	}
 	panic("x")
 	_, _, _ = a, b, ok
+}
+func g(r interface{ FieldPos(int) (int, int); Read() ([]string, error) }, other error) {
+	_, err := r.Read()
+	if err != nil {
+		r.FieldPos(0)
+	}
+	if other != nil {
+		r.FieldPos(1)
+	}
+	r.FieldPos(2)
 }`
 	f, err := parser.ParseFile(token.NewFileSet(), "x.go", src, parser.SkipObjectResolution)
 	if err != nil {
 		return false
 	}
 	ps := panicSources(f)
-	return len(ps) == 2 && strings.HasPrefix(ps[0].what, "assertion") && ps[1].what == "panic call"
+	return len(ps) == 3 && strings.HasPrefix(ps[0].what, "FieldPos") && strings.HasPrefix(ps[1].what, "assertion") && ps[2].what == "panic call"
 }
 
 // factoryPurity: asset.NewRepository and backtest.NewReport build a new object from the
